@@ -196,6 +196,25 @@ theorem C02_v1_spec_written_decoded :
     obtain ⟨b', h1, h2⟩ := C03_v1_hires_roundtrip v hrep
     rw [hi] at h1; have := ok_inj h1; subst this; exact h2
 
+/-- The family in which the library is more lenient than the Spec (`C02_v1_beat_decode_agrees_counterexample`:
+a valid first grid followed by fewer than 8 bytes is read as "no grids") contains NO payload either encoder
+produces: not the library's own (`Impl.V1.encodeBeat`), not the independent one (`V1.encodeBeat`).  Both
+clauses of the property quantify over written blobs only, so the leniency is outside the property. -/
+theorem C02_v1_beat_encoders_outside_lenient_family (v : Impl.V1.Beat) (b : Bytes)
+    (h : V1.encodeBeat v = some b ∨ Impl.V1.encodeBeat v = .ok b) : missingSecondGrid b = false := by
+  have hs : V1.encodeBeat v = some b := by
+    rcases h with h | h
+    · exact h
+    · exact (C02_v1_beat_encode_agrees v b).mp h
+  have hd := C02_v1_spec_written_decoded.2.1 v b hs
+  have hd' : V1.decodeBeat b = some ⟨normOptF v.sampleRate, normOptF v.sampleCount, v.dflt, v.adj⟩ :=
+    C02_v1_written_decodes.2.1 v b ((C02_v1_beat_encode_agrees v b).mpr hs)
+  cases hm : missingSecondGrid b with
+  | false => rfl
+  | true =>
+    rw [(decodeBeat_lenient b hm).1] at hd'
+    cases hd'
+
 /-! ## the framing, Model side against Spec side -/
 section Framing
 open EngineModel.Impl.Zlib
